@@ -439,6 +439,12 @@ pub fn check(rec: &RunRecord, reg: &Reg, which: &ReplyMonitors, cells: &mut Cell
                     }
                 }
             }
+            if which.c08 && mine.is_empty() && !matches!(dexp, DataExp::Missing | DataExp::Undecodable(_) | DataExp::NoneOrError) && enters.is_empty() {
+                // a payload made by the generated builder must reach the method's payload parameters
+                if builds.iter().any(|(cid, _, output)| *cid == d.cid() && output["payload"] == reply["payload"] && output["id"] == reply["id"]) {
+                    out.push(Finding::new("C08", "c08.roundtrip_lost", op.idx, format!("{}: the payload built by `{name}`'s builder was not delivered to {}: the reply returned {}", d.cid(), m.id(), res)));
+                }
+            }
             if which.c08 && !mine.is_empty() {
                 // round trip: the payload parameters equal what the builder was given
                 if let Some((_, input, _)) = builds.iter().find(|(cid, _, output)| {
